@@ -12,6 +12,7 @@ fn main() {
     let first: u64 = a.get(2).and_then(|s| s.parse().ok()).unwrap_or(0);
     let n: u64 = a.get(3).and_then(|s| s.parse().ok()).unwrap_or(1);
     let budget: usize = a.get(4).and_then(|s| s.parse().ok()).unwrap_or(8);
+    nvcore::proofs::SMALL.store(true, std::sync::atomic::Ordering::Relaxed);
     let mut total = Rep::new(seed);
     for i in first..first + n {
         let s = derive(seed, &[0x4d495249, i]);
